@@ -314,6 +314,10 @@ def run(ctx: core.Ctx):
         if (not isinstance(v, int) or v > 20000) and witness is None:
             witness = dict(kind="back-pressure-real-socket", transport=("TLS" if k.startswith("tls") else "plain TCP"),
                            problem=f"{v} of {sock.get('rows')} rows pulled while the client did not read for 1.5 s (the socket buffers hold a few thousand)")
+    # a client that goes away while the server streams freely (not blocked in drain()): the source comes to rest, the session is closed
+    rsw = core.realsock_witness(core.realsock(ctx, ["vanish"]))
+    if rsw and witness is None:
+        witness = rsw
     # inferred column types: the recorded open finding
     peek = inferred_peek_probe()
     ctx.evals += 1
